@@ -42,3 +42,16 @@ Theorem cel_image_pixels_loaded bs f fr l img : Forall is_byte bs -> load inflat
   forall x y, 0 <= x < f_width f -> 0 <= y < f_height f -> cel_spec_pixel f fr l x y = Some (img_get img x y).
 Proof. intros Hb HL. apply cel_image_pixels. exact (loaded_render_wf bs f Hb HL). Qed.
 End Loaded.
+
+(* for every file that loads (from bytes), with no further hypothesis: a pixel inside no visible
+   cel's rectangle is fully transparent *)
+Theorem frame_uncovered_loaded (inflate : list Z -> Z -> zres) bs f fr img x y :
+  Forall is_byte bs -> load inflate bs = Ok f -> frame_image f fr = Ok img ->
+  0 <= x < f_width f -> 0 <= y < f_height f ->
+  (forall l c0 lay c, 0 <= l < num_layers f -> cel_at f fr l = Some c0 -> visibleb f l = true ->
+     aget (f_layers f) l = Some lay -> resolve f c0 l = Some c -> cel_covers f lay c x y = false) ->
+  img_get img x y = transparent.
+Proof.
+  intros Hb HL Hi Hx Hy Hc. eapply frame_uncovered; eauto. exact (loaded_render_wf inflate bs f Hb HL).
+Qed.
+
